@@ -98,6 +98,13 @@ def check(world, tier):
                 for x in L.by_node.get(e.node, []):
                     pass
             okk = L.field_ref(args_[0], "clients") and isinstance(keyref, tuple) and keyref[0] == "r" and keyref[1][0] == "L" and keyref[1][1] == eng.entry_frame
+            if not okk and L.field_ref(args_[0], "clients") and isinstance(keyref, tuple) and keyref[0] == "r":
+                # the address was handed down by value: the key refers to a copy; what counts is the value found there at the lookup
+                site = mv[0][2]
+                for x in L.by_node.get(site, []):
+                    tv = (arg_pointee(x, 1) or {}).get(()) if len(x.args) > 1 and x.args[1] == keyref else None
+                    if isinstance(tv, tuple) and tv[0] == "t" and term_contains(tv, lambda t: isinstance(t, tuple) and len(t) > 1 and t[1] == "peer_addr_of_datagram"):
+                        okk = True
             b.ob(okk, "dispatch-key-not-source in %s" % short(e.body), "the routing table is not indexed with the source address of the datagram being dispatched", e.loc,
                  sample={"clients[key]": "key = source of this datagram"})
         # forwarded value is the decoded packet of this iteration
@@ -142,11 +149,17 @@ def check(world, tier):
                 port = items.get("(1,)")
                 ipv = items.get("(0,)")
                 okb = port is not None and port[0] == "i" and port[1] == (0, ()) and term_contains(ipv, is_app("std::net::SocketAddr::ip"))
+        elif isinstance(v, tuple) and v and v[0] == "agg" and isinstance(v[1], dict):
+            # bind((ip, port)): the tuple itself is the ToSocketAddrs argument
+            port = v[1].get((1,))
+            ipv = [vv for k, vv in v[1].items() if k and k[0] == 0]
+            okb = port is not None and port[0] == "i" and port[1] == (0, ()) and any(term_contains(x, is_app("std::net::SocketAddr::ip")) for x in ipv)
         c.ob(okb, "transfer-socket-bind in %s" % short(e.body), "the per-transfer socket is not bound to (local ip, port 0)", e.loc, sample={"bind": "(local ip, 0)"})
     for e in conns:
         # same frame's bind result is what gets connected, to the requester (= the handler's `to`)
         to = e.args[1] if len(e.args) > 1 else None
-        okc = isinstance(to, tuple) and to[0] == "r"
+        okc = isinstance(to, tuple) and (to[0] == "r" or (to[0] == "t" and term_contains(to, lambda t: isinstance(t, tuple) and len(t) > 1 and
+                                                                                      (t[1] == "peer_addr_of_datagram" or t[0] in ("join", "phi", "proj")))))
         c.ob(okc, "transfer-socket-connect in %s" % short(e.body), "connect() target of the per-transfer socket unknown", e.loc, nontrivial=False)
     # every state in which a worker is started has either the channel-backed socket (single-port mode) or a UdpSocket whose
     # connect() to the requester succeeded on that path (lemma L-CONN of C05, on the states that reach the worker's
